@@ -6,6 +6,7 @@ package attest
 import (
 	"bytes"
 	"crypto/ecdsa"
+	"crypto/sha256"
 	"encoding/hex"
 	"fmt"
 	"math/big"
@@ -137,8 +138,37 @@ type SigStyle struct {
 }
 
 // Sign signs keccak(message) with key k.
-func Sign(message []byte, k *Key, st SigStyle) []byte {
-	sig, err := crypto.Sign(Keccak(message), k.Priv)
+func Sign(message []byte, k *Key, st SigStyle) []byte { return SignDigest(Keccak(message), k, st) }
+
+// DerivedDigest: 32-byte values that are NOT the Keccak-256 digest of the message but that a signing back end could
+// plausibly produce from it (EIP-191 wrappers, other hash functions, a second hashing round). A signature over one
+// of them is a signature "over other bytes".
+func DerivedDigest(kind string, message []byte) []byte {
+	switch kind {
+	case "eip191": // personal_sign of the digest
+		return Keccak(append([]byte("\x19Ethereum Signed Message:\n32"), Keccak(message)...))
+	case "eip191msg": // personal_sign of the message itself
+		return Keccak(append([]byte(fmt.Sprintf("\x19Ethereum Signed Message:\n%d", len(message))), message...))
+	case "sha256":
+		d := sha256.Sum256(message)
+		return d[:]
+	case "sha3": // NIST SHA3-256 (other padding than legacy Keccak)
+		d := sha3.Sum256(message)
+		return d[:]
+	case "keccak2":
+		return Keccak(Keccak(message))
+	case "keccakhex":
+		return Keccak([]byte("0x" + hex.EncodeToString(message)))
+	}
+	panic("unknown derived digest " + kind)
+}
+
+// DerivedKinds lists the kinds DerivedDigest knows.
+var DerivedKinds = []string{"eip191", "eip191msg", "sha256", "sha3", "keccak2", "keccakhex"}
+
+// SignDigest signs a 32-byte digest as it is.
+func SignDigest(digest []byte, k *Key, st SigStyle) []byte {
+	sig, err := crypto.Sign(digest, k.Priv)
 	if err != nil {
 		panic(err)
 	}
